@@ -160,4 +160,6 @@ def run_case(case, obs):
         obs.cls("ramped-up-client")
     if case.get("complete_at") is not None and any(q["t_enter"] < case["complete_at"] < q.get("t_exit", -1) for q in r["requests"]):
         obs.cls("completed-from-outside-with-request-in-flight")
+    if case.get("completes_parent") and case.get("throughput") is not None and isinstance(case.get("source_size"), list):
+        obs.cls("throttled-completing-task-with-clients-of-different-length")
     obs.mark_nontrivial(behind or errors_seen or c >= 2)
